@@ -20,7 +20,7 @@ from . import extract
 VERIF = os.path.dirname(os.path.dirname(os.path.abspath(__file__)))
 REPO = os.environ.get('VF_REPO', '/repo')
 JOBS = int(os.environ.get('VF_JOBS', '16'))
-MEM_LIMIT = int(os.environ.get('VF_MEM_GB', '12')) << 30
+MEM_LIMIT = int(os.environ.get('VF_MEM_GB', '40')) << 30   # address-space limit per tool process (cbmc reserves far more than it touches)
 
 CBMC_CHECKS = ['--bounds-check', '--pointer-check', '--pointer-overflow-check', '--undefined-shift-check',
                '--signed-overflow-check', '--div-by-zero-check']
@@ -90,6 +90,8 @@ def const_excludes(srcdir):
     excluded from the havoc by name.  The list is derived from the source text on every run."""
     ex = []
     p = os.path.join(srcdir, 'goldilocks_base_field.hpp')
+    if not os.path.exists(p):
+        return ex       # pure M2 group: only generated C files
     s = open(p).read()
     for m in re.finditer(r'^\s*static const Element (\w+)(\[[^\]]*\])?;', s, re.M):
         ex.append('src/goldilocks_base_field.hpp:Goldilocks::' + m.group(1))
@@ -152,7 +154,7 @@ class Runner:
             gbs.append(out)
         for i, c in enumerate(g.c):
             out = 'c%d.gb' % i
-            rc, o, _ = run(['goto-cc', '-I', os.path.join(VERIF, 'contracts'), '-I', os.path.join(VERIF, 'stubs', 'c')] +
+            rc, o, _ = run(['goto-cc', '-I', os.path.join(VERIF, 'contracts'), '-I', os.path.join(VERIF, 'stubs', 'c'), '-I', 'src'] +
                            ['-D' + d for d in g.defines] + ['-c', os.path.join(VERIF, c), '-o', out], gd, 300, log)
             if rc != 0:
                 raise MachineryError('goto-cc failed on %s:\n%s' % (c, o[-2000:]))
@@ -177,6 +179,12 @@ class Runner:
             return res
         if u.light:
             inst = linked
+            if u.loops == 'contract':
+                inst = 'i_%s.gb' % safe
+                rc, o, _ = run(['goto-instrument', '--apply-loop-contracts', linked, inst], gd, tmo, log)
+                if rc != 0 or not re.search(r'loop', o, re.I) and False:
+                    res['detail'] = 'goto-instrument --apply-loop-contracts failed (rc %s): %s' % (rc, o[-1500:])
+                    return res
         else:
             cmd = ['goto-instrument', '--dfcc', u.harness, '--enforce-contract', u.enforce]
             for r in u.replace:
@@ -243,6 +251,14 @@ class Runner:
             if st != 'SUCCESS':
                 failed.append(dict(obligation=name, status=st, description=desc,
                                    location=r.get('sourceLocation', {}), trace=r.get('trace')))
+        if any(o_[1] not in ('SUCCESS', 'FAILURE') for o_ in obl) or sentinel not in ('SUCCESS', 'FAILURE', None):
+            # ERROR / UNKNOWN: the solver gave up (e.g. out of memory) - undecided, never a violation
+            res['status'] = 'error'
+            res['detail'] = 'solver did not decide %d obligation(s) (status %s): %s' % (
+                len([1 for o_ in obl if o_[1] not in ('SUCCESS', 'FAILURE')]), sorted(set(o_[1] for o_ in obl)), ' | '.join(t for t in texts if 'memory' in t.lower())[:300])
+            res['obligations'] = len(obl)
+            res['discharged'] = 0
+            return res
         res['obligations'] = len(obl)
         res['discharged'] = len([1 for o_ in obl if o_[1] == 'SUCCESS'])
         res['failed'] = failed
